@@ -501,6 +501,47 @@ Example c18_temp_files_confined_ex :
   packagedata_tmp (la "/t/cache/r/x86_64/p-1/00ff.dat.tar") (la "42") = Some (la "/t/cache/r/x86_64/p-1/42.tmp").
 Proof. split; vm_compute; reflexivity. Qed.
 
+(* cachePackage and retrieveAndSaveFile (pkg/apk/apk): [cachepackage_sites] / [retrieve_sites]
+   are their creating / advertising / removing calls with every argument traced back to
+   the parameters ($2 = the expanded package, $3 = cacheDir; $2($r.wrapped.Do($1)) = what the
+   cachePlacer returned) and literals, read from the source on this run; the model's names
+   follow these derivations and take their suffixes from [cachepackage_suffixes].  Every
+   name cachePackage advertises is ONE proper component below cacheDir (the hashes are
+   printed in hexadecimal); for a cache file <d>/<one proper component> — what
+   cacheFileFromEtag returns, c18_etag_safe — the directory retrieveAndSaveFile makes, its
+   temporary file and the advertised name lie at or below <d>. *)
+Theorem c18_cache_writes_confined :
+  (cachepackage_sites =
+     [("paths.AdvertiseCachedFile", ["$2.SignatureFile"; "filepath.Join($3, hex.EncodeToString($2.ControlHash) + "".sig.tar.gz"")"]);
+      ("paths.AdvertiseCachedFile", ["$2.PackageFile"; "filepath.Join($3, hex.EncodeToString($2.PackageHash) + "".dat.tar.gz"")"]);
+      ("paths.AdvertiseCachedFile", ["$2.TarFile"; "strings.TrimSuffix(filepath.Join($3, hex.EncodeToString($2.PackageHash) + "".dat.tar.gz""), "".gz"")"]);
+      ("paths.AdvertiseCachedFile", ["$2.ControlFile"; "filepath.Join($3, hex.EncodeToString($2.ControlHash) + "".ctl.tar.gz"")"])]%string /\
+   retrieve_sites =
+     [("os.MkdirAll", ["filepath.Dir($2($r.wrapped.Do($1)))"; "0755"]);
+      ("os.CreateTemp", ["filepath.Dir($2($r.wrapped.Do($1)))"; """*.tmp"""]);
+      ("os.Remove", ["os.CreateTemp(filepath.Dir($2($r.wrapped.Do($1))), ""*.tmp"").Name()"]);
+      ("paths.AdvertiseCachedFile", ["os.CreateTemp(filepath.Dir($2($r.wrapped.Do($1))), ""*.tmp"").Name()"; "$2($r.wrapped.Do($1))"])]%string /\
+   cachepackage_suffixes = [".ctl.tar.gz"; ".sig.tar.gz"; ".dat.tar.gz"]%string /\ cachepackage_tar_trim = ".gz"%string) /\
+  (forall cacheDir ctl dat p, is_abs cacheDir = true ->
+     forallb is_hex_char ctl = true -> forallb is_hex_char dat = true ->
+     In p (cache_package_dsts cacheDir ctl dat) ->
+     under cacheDir p /\ exists n, proper n /\ cc p = cc cacheDir ++ [n]) /\
+  (forall d n r p, is_abs d = true -> proper n -> digits_ok r = true ->
+     In p (retrieve_creates (join [d; n]) r) -> under d p).
+Proof.
+  split; [repeat split; reflexivity|].
+  exact (conj cache_package_dsts_confined retrieve_creates_confined).
+Qed.
+Print Assumptions c18_cache_writes_confined.
+
+Example c18_cache_writes_confined_ex :
+  cache_package_dsts (la "/t/cache/r/x86_64/p-1") (la "00aa") (la "11bb") =
+    [la "/t/cache/r/x86_64/p-1/00aa.sig.tar.gz"; la "/t/cache/r/x86_64/p-1/11bb.dat.tar.gz";
+     la "/t/cache/r/x86_64/p-1/11bb.dat.tar"; la "/t/cache/r/x86_64/p-1/00aa.ctl.tar.gz"] /\
+  retrieve_creates (join [la "/t/cache/r/x86_64/APKINDEX"; la "MFRGG===.tar.gz"]) (la "7") =
+    [la "/t/cache/r/x86_64/APKINDEX"; la "/t/cache/r/x86_64/APKINDEX/7.tmp"; la "/t/cache/r/x86_64/APKINDEX/MFRGG===.tar.gz"].
+Proof. split; vm_compute; reflexivity. Qed.
+
 (* fetchAlpineKeys names the key url.PathUnescape(filepath.Base(url)) — DECODED — joins it
    to etc/apk/keys and stores it with OpenFile(O_CREATE): the name can climb out of the
    keys directory and out of the root (refutation of "the key file is below etc/apk/keys");
